@@ -31,6 +31,8 @@ def label(ev):
         return ev["ev"]
     if ev["ev"] == "List":
         return "List:" + ev["kind"]
+    if ev["ev"] == "Edit":
+        return "Edit:" + ev["path"]
     return ev["ev"]
 
 
@@ -60,6 +62,17 @@ def run(ctx):
         raise vlib.Machinery("C31: %d grid hellos sent, %d events back" % (len(chw), len(grid)))
     evs += grid
     nch = len(evs)
+    # edit the public view (one member at a time), then convert: bases are the hello with every member present, grid
+    # hellos with a pre_shared_key extension, and parrot hellos
+    full = [s for s in chw if all(v == "small" for v in s["f"].values())]
+    if len(full) != 1:
+        raise vlib.Machinery("C31: the grid has %d hellos with every member present and small (expected 1)" % len(full))
+    withpsk = [s for s in chw if s["f"]["psk"] == "small" and s is not full[0]]
+    rnd = __import__("random").Random(ctx.seed)
+    edit_bases = [full[0]["raw"]] + [s["raw"] for s in rnd.sample(withpsk, min(len(withpsk), 3 if ctx.quick else 25))]
+    edit_bases += [e["raw"] for e in evs[:len(ids) * (2 if ctx.quick else 12):(7 if ctx.quick else 3)] if e["ev"] == "CH" and not e["err"]][:4 if ctx.quick else 40]
+    edits = ctx.drv("pubedit", {"scns": [{"raw": r} for r in edit_bases]}, prog="gen", timeout=1200)
+    evs += edits
     evs += ctx.drv("pubserverhello", {"scns": sh}, prog="gen", timeout=1200)
     evs += ctx.drv("pubcertreq", {"scns": cr}, prog="gen")
     evs += ctx.drv("publists", {"scns": ls}, prog="gen")
@@ -106,6 +119,15 @@ def run(ctx):
         raise vlib.Machinery("C31 vacuity: no grid hello with supported_groups but without ec_point_formats")
     if len(chs) < len(ids) or not any(e["pub"].get("KeyShares") for e in chs) or not any(e["pub"].get("AlpnProtocols") for e in chs):
         raise vlib.Machinery("C31 vacuity: parsed ClientHello views are empty or missing (%d of %d)" % (len(chs), nch))
+    full_edits = [e for e in edits if e["base"] == 0 and e["applied"] and not e["err"]]
+    members = set(full_edits[0]["pub"].keys()) - {"Raw"} if full_edits else set()
+    if not members or {e["member"] for e in full_edits} != members:
+        raise vlib.Machinery("C31 vacuity: edits on the all-members hello cover %r, the view has %r" % (
+            sorted({e["member"] for e in full_edits}), sorted(members)))
+    for need in ("PskIdentities[0].ObfuscatedTicketAge", "PskIdentities[1].Label", "PskBinders[0]", "KeyShares[0].Data", "KeyShares[0].Group",
+                 "CipherSuites[1]", "AlpnProtocols[0]", "PskIdentities[-last]", "QuicTransportParameters", "ServerName"):
+        if not any(e["path"] == need for e in full_edits):
+            raise vlib.Machinery("C31 vacuity: no edit of %s recorded" % need)
     if not any(e["ev"] == "Suite" for e in suites) or not any(e["ev"] == "Keys" for e in suites):
         raise vlib.Machinery("C31 vacuity: no cipher-suite / key views recorded")
 
@@ -125,6 +147,16 @@ def run(ctx):
         c6 = copy.deepcopy(gq); c6["nils"]["privB"]["quicTransportParameters"] = True     # rebuilt private form lost "present but empty"
         c7 = copy.deepcopy(gq); c7["nils"]["pub3"]["QuicTransportParameters"] = True
         pres = [c6, c7]
+    ge = next((e for e in full_edits if e["path"] == "PskIdentities[0].ObfuscatedTicketAge" and id(e) not in bad_evs), None)
+    if ge is not None:     # the private form still carries the old ticket age / the re-parsed hello does
+        c8 = copy.deepcopy(ge); c8["priv"]["pskIdentities"][0]["obfuscatedTicketAge"] = ge["before"]["PskIdentities"][0]["ObfuscatedTicketAge"]
+        c9 = copy.deepcopy(ge); c9["q"]["PskIdentities"] = ge["before"]["PskIdentities"]
+        crej_e = validate(ctx, [ge, c8, c9], "c31_canary_edit")
+        got_e = {}
+        for i, f, _ in crej_e:
+            got_e.setdefault(i, set()).update(f)
+        if not (set(got_e) == {2, 3} and "private-form-does-not-reflect-the-edited-view" in got_e[2] and "marshal-does-not-reflect-the-edited-view" in got_e[3]):
+            raise vlib.Machinery("C31 binding canary (edits) failed: %r" % (crej_e,))
     crej = validate(ctx, [good, c1, c2, c3, gsh, c4, gl, c5] + pres, "c31_canary")
     got = {}
     for i, f, _ in crej:
@@ -137,7 +169,9 @@ def run(ctx):
     # ---- reproduce and report
     for sig, items in sorted(rejected.items()):
         ev, fails, detail = items[0]
-        if ev["ev"] == "CH" and ev["id"] == "tlc-grid":
+        if ev["ev"] == "Edit":
+            again = [e for e in ctx.drv("pubedit", {"scns": [{"raw": edit_bases[ev["base"]]}]}, prog="gen", name="again") if e["path"] == ev["path"]]
+        elif ev["ev"] == "CH" and ev["id"] == "tlc-grid":
             again = ctx.drv("pubhelloraw", {"scns": [{"f": ev["f"], "raw": ev["raw"]}]}, prog="gen", name="again")
         elif ev["ev"] == "CH":
             again = ctx.drv("pubhello", {"ids": [ev["id"]], "n": 3}, prog="gen", name="again")
@@ -159,13 +193,17 @@ def run(ctx):
                 replay["members"] = ev["f"]; replay["all_members_of_class"] = [e["f"] for e, _, _ in items[:20]]
         elif ev["ev"] in ("SH", "CR"):
             replay["scn"] = ev["scn"]
+        elif ev["ev"] == "Edit":
+            replay["path"] = ev["path"]; replay["base_hello_hex"] = bytes(edit_bases[ev["base"]]).hex()
+            replay["how"] = "p := tls.UnmarshalClientHello(base); edit p.<path>; p.Raw = nil; p.Marshal() / conversion to the private form"
         ctx.finding(sig, "conversion rejected by spec/PubViews.tla: %s %s" % (fails, json.dumps(detail)), replay)
 
     cov = {"evaluations": len(evs), "distinct_nontrivial": len({e["id"] for e in chs}) + len(chw) + len(sh) + len(cr) + len(ls) + len(suites),
            "rule": "evaluations = logged conversion bundles (each: both conversion directions, Unmarshal+Marshal, clear-Raw re-marshal and re-parse) judged by TLC; distinct = ClientHelloIDs + TLC-enumerated ServerHello/CertificateRequest/list scenarios + cipher-suite and key views",
            "samples": [{"clienthello": good["id"], "fields": sorted(good["pub"].keys())[:12]}, {"serverhello_scenario": sh[len(sh) // 2]},
                        {"list_scenario": ls[-1]}],
-           "clienthellos": nch, "clienthello_presence_scenarios": len(chw), "presence_coverage": "all pairs" if ctx.quick else "all triples", "serverhello_scenarios": len(sh), "certreq_scenarios": len(cr), "list_scenarios": len(ls),
+           "clienthellos": nch, "view_edits": sum(1 for e in edits if e["applied"]), "edit_bases": len(edit_bases),
+           "edited_members_on_full_hello": len(members), "clienthello_presence_scenarios": len(chw), "presence_coverage": "all pairs" if ctx.quick else "all triples", "serverhello_scenarios": len(sh), "certreq_scenarios": len(cr), "list_scenarios": len(ls),
            "suite_views": sum(1 for e in suites if e["ev"] == "Suite"), "key_views": sum(1 for e in suites if e["ev"] == "Keys"),
            "exhaustive": False, "exhaustive_part": "the field-presence grid of PubViews_MC (every combination, emitted by TLC)"}
     return "other", cov, [
